@@ -351,7 +351,7 @@ def fixtures(base: str) -> Dict[str, str]:
 
 def origin_cert(paths: Dict[str, str], name: str, kind: str) -> Dict[str, str]:
     """Certificate + key for an origin called `name` (DNS name or IP literal).
-    kind: good | selfsigned | wrongname | expired.  Cached per (name, kind)."""
+    kind: good | selfsigned | wrongname | expired | oddsubject.  Cached per (name, kind)."""
     d = paths['dir']
     tag = '%s-%s' % (name.replace(':', '_'), kind)
     crt = os.path.join(d, 'o-%s.pem' % tag)
@@ -375,7 +375,12 @@ def origin_cert(paths: Dict[str, str], name: str, kind: str) -> Dict[str, str]:
               '-addext', 'subjectAltName=%s' % san], d)
         return {'cert': crt, 'key': key}
     csr = os.path.join(d, 'o-%s.csr' % tag)
-    _run([o, 'req', '-new', '-key', 'origin-key.pem', '-out', csr, '-subj', '/CN=%s' % cn], d)
+    subj = '/CN=%s' % cn
+    if kind == 'oddsubject':
+        # an otherwise perfectly good certificate whose organisation name contains the characters that separate fields in
+        # openssl's -subj syntax
+        subj = '/O=Odd\\/Org\\+Co/CN=%s' % cn
+    _run([o, 'req', '-new', '-key', 'origin-key.pem', '-out', csr, '-subj', subj], d)
     if kind == 'expired':
         # `openssl ca` takes explicit validity dates on every OpenSSL 1.1 / 3.x (x509 -days -1 is refused by some builds)
         db = os.path.join(d, 'db-%s' % tag)
